@@ -1,2 +1,4 @@
--- stub driver for C01: replaced when the property's model exists
-def main : IO Unit := pure ()
+import Snel.Model.ShardProto
+open Snel
+
+def main : IO Unit := Proto.serve (ShardProto.answerWith id)
